@@ -11,8 +11,10 @@ import (
 	"math/rand"
 
 	metav1 "k8s.io/apimachinery/pkg/apis/meta/v1"
+	"k8s.io/apimachinery/pkg/util/intstr"
 	"sigs.k8s.io/controller-runtime/pkg/client"
 	gatewayv1 "sigs.k8s.io/gateway-api/apis/v1"
+	gatewayv1alpha2 "sigs.k8s.io/gateway-api/apis/v1alpha2"
 
 	"verif/harness/lib/world"
 )
@@ -87,6 +89,8 @@ func EncodeObjs(objs []client.Object) []world.ObjJSON {
 			kind = "Gateway"
 		case *gatewayv1.HTTPRoute:
 			kind = "HTTPRoute"
+		case *gatewayv1alpha2.TCPRoute:
+			kind = "TCPRoute"
 		}
 		if kind == "" {
 			out[i] = world.EncodeObj(o)
@@ -113,6 +117,8 @@ func DecodeObjs(js []world.ObjJSON) []client.Object {
 			o = &gatewayv1.Gateway{}
 		case "HTTPRoute":
 			o = &gatewayv1.HTTPRoute{}
+		case "TCPRoute":
+			o = &gatewayv1alpha2.TCPRoute{}
 		default:
 			out[i] = world.DecodeObj(j)
 			continue
@@ -129,9 +135,100 @@ func DecodeObjs(js []world.ObjJSON) []client.Object {
 func HasGateway(objs []client.Object) bool {
 	for _, o := range objs {
 		switch o.(type) {
-		case *gatewayv1.GatewayClass, *gatewayv1.Gateway, *gatewayv1.HTTPRoute:
+		case *gatewayv1.GatewayClass, *gatewayv1.Gateway, *gatewayv1.HTTPRoute, *gatewayv1alpha2.TCPRoute:
 			return true
 		}
 	}
 	return false
+}
+
+// RouteIdentities are groups of namespace/name pairs for routes created in the same second:
+// namespace order opposite to name order (apps/web, billing/api), concatenations colliding
+// with different splits, one namespace a prefix of another, differences around the separator.
+var RouteIdentities = [][][2]string{
+	{{"apps", "web"}, {"billing", "api"}},
+	{{"a", "bc"}, {"ab", "c"}},
+	{{"a", "z"}, {"ab", "a"}},
+	{{"a", "b"}, {"b", "a"}},
+	{{"a-b", "c"}, {"a", "b-c"}},
+	{{"abc", "c"}, {"ab", "cc"}, {"a", "bcc"}},
+	{{"apps", "web"}, {"billing", "api"}, {"a", "z"}, {"b", "a"}},
+}
+
+// RouteNamespaces are the namespaces of RouteIdentities.
+var RouteNamespaces = []string{"apps", "billing", "a", "ab", "abc", "a-b", "b"}
+
+// GenGatewaysAdversarial generates a GatewayClass, two Gateways (namespace infra; an HTTP and
+// a TCP listener, routes from all namespaces), the services of the route namespaces, and
+// groups of HTTPRoutes and TCPRoutes with one creation stamp and adversarial identities:
+// every route of a group claims the same hostname + path + match (or the same TCP listener)
+// with the service of its own namespace, through one or both gateways.
+func GenGatewaysAdversarial(rng *rand.Rand, groups int) []client.Object {
+	var objs []client.Object
+	objs = append(objs, &gatewayv1.GatewayClass{ObjectMeta: metav1.ObjectMeta{Name: "haproxy-gw"},
+		Spec: gatewayv1.GatewayClassSpec{ControllerName: gatewayv1.GatewayController(GatewayControllerName)}})
+	from := gatewayv1.NamespacesFromAll
+	for g, name := range []string{"gw1", "gw2"} {
+		gw := &gatewayv1.Gateway{ObjectMeta: metav1.ObjectMeta{Namespace: "infra", Name: name},
+			Spec: gatewayv1.GatewaySpec{GatewayClassName: "haproxy-gw"}}
+		gw.CreationTimestamp = world.Stamp(5)
+		allowed := &gatewayv1.AllowedRoutes{Namespaces: &gatewayv1.RouteNamespaces{From: &from}}
+		gw.Spec.Listeners = []gatewayv1.Listener{
+			{Name: "http", Port: 80, Protocol: gatewayv1.HTTPProtocolType, AllowedRoutes: allowed},
+			{Name: "tcp", Port: gatewayv1.PortNumber(7100 + g), Protocol: gatewayv1.TCPProtocolType, AllowedRoutes: allowed},
+		}
+		objs = append(objs, gw)
+	}
+	for i, ns := range RouteNamespaces {
+		objs = append(objs, world.Service(ns, "svc1", world.SvcPort{Name: "http", Port: 80, TargetPort: intstr.FromInt(8080)}))
+		objs = append(objs, world.Endpoints(ns, "svc1", world.EpPort{Name: "http", Port: 8080, Ready: []string{fmt.Sprintf("10.8.%d.1", i)}}))
+	}
+	gwns := gatewayv1.Namespace("infra")
+	parents := func(section string) []gatewayv1.ParentReference {
+		sec := gatewayv1.SectionName(section)
+		refs := []gatewayv1.ParentReference{{Namespace: &gwns, Name: "gw1", SectionName: &sec}}
+		switch rng.Intn(3) {
+		case 0:
+			refs = append(refs, gatewayv1.ParentReference{Namespace: &gwns, Name: "gw2", SectionName: &sec})
+		case 1:
+			refs = []gatewayv1.ParentReference{{Namespace: &gwns, Name: "gw2", SectionName: &sec}, refs[0]}
+		}
+		return refs
+	}
+	port := gatewayv1.PortNumber(80)
+	used := map[string]bool{}
+	hosts := []string{"a.example", "b.example", "gw.example"}
+	for g := 0; g < groups; g++ {
+		ids := RouteIdentities[rng.Intn(len(RouteIdentities))]
+		host := hosts[g%len(hosts)]
+		path := []string{"/", "/app"}[rng.Intn(2)]
+		mt := []gatewayv1.PathMatchType{gatewayv1.PathMatchPathPrefix, gatewayv1.PathMatchExact}[rng.Intn(2)]
+		tcp := rng.Intn(3) == 0
+		for _, id := range ids {
+			key := fmt.Sprint(tcp, id)
+			if used[key] {
+				continue
+			}
+			used[key] = true
+			ref := gatewayv1.BackendRef{BackendObjectReference: gatewayv1.BackendObjectReference{Name: "svc1", Port: &port}}
+			if tcp {
+				rt := &gatewayv1alpha2.TCPRoute{ObjectMeta: metav1.ObjectMeta{Namespace: id[0], Name: id[1]}}
+				rt.CreationTimestamp = world.Stamp(15)
+				rt.Spec.ParentRefs = parents("tcp")
+				rt.Spec.Rules = []gatewayv1alpha2.TCPRouteRule{{BackendRefs: []gatewayv1.BackendRef{ref}}}
+				objs = append(objs, rt)
+				continue
+			}
+			rt := &gatewayv1.HTTPRoute{ObjectMeta: metav1.ObjectMeta{Namespace: id[0], Name: id[1]}}
+			rt.CreationTimestamp = world.Stamp(15)
+			rt.Spec.ParentRefs = parents("http")
+			rt.Spec.Hostnames = []gatewayv1.Hostname{gatewayv1.Hostname(host)}
+			p, t := path, mt
+			rt.Spec.Rules = []gatewayv1.HTTPRouteRule{{
+				Matches:     []gatewayv1.HTTPRouteMatch{{Path: &gatewayv1.HTTPPathMatch{Type: &t, Value: &p}}},
+				BackendRefs: []gatewayv1.HTTPBackendRef{{BackendRef: ref}}}}
+			objs = append(objs, rt)
+		}
+	}
+	return objs
 }
